@@ -121,6 +121,17 @@ CHECKS["C19"] = dict(
          "Known findings are keyed by the semantic call site (top three library frames) of the std::terminate / signal, never by allocation index.",
     technique="TLA+ contract (TLC) + exhaustive fault enumeration over allocation indices, process per fault, each execution validated by TLC")
 
+CHECKS["C20"] = dict(
+    category="model_checking", design_ref="DESIGN.md §5 C20",
+    text="TLC exhaustively checks that transcriptions of XalanMap/XalanSet, XalanVector, XalanDOMString, XalanList and XalanDeque (spec/impl/{Map,Vector,String,List,Deque}Impl.tla: "
+         "buckets with stale references, free lists, rehash, compaction, growth, aliasing arguments, splice pointer assignments, block indices) refine set / sequence / function "
+         "models (spec/core/Containers.tla) for all bounded operation histories. One shortest history per transition of those graphs (plus seeded random and simulated long "
+         "histories) is replayed on the real templates in an ASan/UBSan build with an instance-counting element type, and TLC accepts every recorded step only if it is a step of "
+         "the abstract model.",
+    note="Trusted: TLC and CommunityModules; harness/c20.cpp incl. the Counted lifetime instrumentation and the observation projection; tools/tlaparse.py; faithfulness of the Impl "
+         "transcriptions (they choose inputs, never expected values); ASan/UBSan for memory outside the container.",
+    technique="TLC refinement check of implementation-shaped container transcriptions against abstract models + per-transition behaviour export replayed on the real templates (sanitizer build) + TLC trace validation")
+
 CHECKS["C04"] = dict(
     category="model_checking", design_ref="DESIGN.md §5 C04",
     text="Serializer.tla states the obligation: either an error and the tree is not representable, or the bytes decode in the declared encoding and parse back "
